@@ -31,6 +31,11 @@ func TestDbgReplay(t *testing.T) {
 			t.Log("      ", e)
 		}
 		t.Log("   cluster:", w.Cluster.Paths())
+		for _, n := range []string{"probe", "probe-sub"} {
+			if o := w.Cluster.Get(world.Path("ConfigMap", n, "default")); o != nil {
+				t.Logf("   %s: %v", n, o["data"])
+			}
+		}
 	}
 }
 
